@@ -148,11 +148,11 @@ def run(repo: Repo, L: Ledger, tier: str):
     lab_sites = [c for c in repo.calls_in(fao) if isinstance(c.func, ast.Attribute) and c.func.attr == label.name]
     ok7, why7 = len(sites) == 1 and len(lab_sites) == 1, f"{len(sites)} calls of make_scaffold_name in the lookup function (expected exactly one, inside the Pretext scaffold loop)"
     if ok7:
-        from ..util import ancestors as _anc
+        from ..util import end_pos, pos, ancestors as _anc
 
         loops_mk = [a for a in _anc(sites[0]) if isinstance(a, ast.For)]
         loops_lb = [a for a in _anc(lab_sites[0]) if isinstance(a, ast.For)]
-        ok7 = len(loops_mk) == 1 and loops_mk[0] in loops_lb and sites[0].lineno < lab_sites[0].lineno
+        ok7 = len(loops_mk) == 1 and loops_mk[0] in loops_lb and pos(sites[0]) < pos(lab_sites[0])
         why7 = "the per-scaffold tag scan is not done once per Pretext scaffold inside the same loop that labels its pieces"
     L.rule("R7", "sticky tagging mode (Target seen, primary haplotype) is updated once per Pretext scaffold, in file order, before its pieces are labelled")
     L.check(ok7, "R7", fao.short, "make_scaffold_name called once per scaffold inside the labelling loop", why7 + ": a pre-pass over all scaffolds switches Target mode on before the first scaffold is labelled, so untagged scaffolds *before* the first Target tag become contaminants", fao.loc())
@@ -202,8 +202,8 @@ def run(repo: Repo, L: Ledger, tier: str):
     ok_ctor = isinstance(ctor, ast.Call) and dotted(ctor.func) == "Scaffold"
     if ok_ctor:
         kws = {k.arg: norm(k.value) for k in ctor.keywords}
-        pos = [norm(a) for a in ctor.args]
-        ok_ctor = (pos[:1] == [f"{var}.name"] or kws.get("name") == f"{var}.name") and kws.get("tag") == f"{var}.tag" and kws.get("haplotype") == f"{var}.haplotype" and kws.get("rank") == f"{var}.rank"
+        pos_args = [norm(a) for a in ctor.args]
+        ok_ctor = (pos_args[:1] == [f"{var}.name"] or kws.get("name") == f"{var}.name") and kws.get("tag") == f"{var}.tag" and kws.get("haplotype") == f"{var}.haplotype" and kws.get("rank") == f"{var}.rank"
     L.check(ok_ctor, "R3", f.short + ":inherit", "fused scaffold inherits name, tag, haplotype, rank of its first piece", "fused scaffold does not take name/tag/haplotype/rank from the piece that creates it", f.loc(ctor))
 
     # ---------------------------------------------------------------- R4
